@@ -8,6 +8,7 @@ import Skc.Model.Anomaliser
 import Skc.Model.Datagen
 import Skc.Model.Config
 import Skc.Gen.KernelsFloat
+import Skc.Gen.Loops
 /-! Line-protocol driver over the executable models (`lake exe skcdrv` or
     `lake env lean --run Driver.lean`): one operation per input line, one canonical output line
     per operation; ill-formed lines answer `bad-op` (never a default). Carrier: `Rat`. -/
@@ -397,6 +398,20 @@ def handleCfg (ws : List String) : String :=
     | _, _, _ => "bad-op"
   | _ => "bad-op"
 
+/-- `genwhere <bits>`: the definition regenerated from /repo's `where` (route T2) on a 0/1 string -/
+def handleGenWhere : List String → String
+  | [bits] =>
+    if GenL.loop_where_translated then
+      match bits.toList.mapM (fun c => if c = '1' then some true else if c = '0' then some false else none) with
+      | some ind =>
+        let ind := if bits = "-" then [] else ind
+        match GenL.where_ ind with
+        | some r => toString r
+        | none => "raises"
+      | none => if bits = "-" then (match GenL.where_ [] with | some r => toString r | none => "raises") else "bad-op"
+    else "untranslated"
+  | _ => "bad-op"
+
 def handle (line : String) : String :=
   let ws := (line.trimAscii.toString.splitOn " ").filter (· ≠ "")
   match ws with
@@ -409,6 +424,7 @@ def handle (line : String) : String :=
   | "cbs" :: rest => handleCbs rest
   | "mw" :: rest => handleMw rest
   | "kern" :: rest => handleKern rest
+  | "genwhere" :: rest => handleGenWhere rest
   | "cutrow" :: rest => handleCutRow rest
   | "statanom" :: rest => handleStatAnom rest
   | "cfg" :: rest => handleCfg rest
